@@ -115,3 +115,149 @@ fn k13_3_witness_must_fail() {
     // wrong on purpose: claims the probe never finds a forced byte
     assert!(got.is_none());
 }
+
+// ---------------------------------------------------------------- K19.4 compute_bias after the trie walk (source slice)
+// The statements of ParserState::compute_bias between the comment `The SPECIAL_TOKEN_MARKER should never be allowed by itself`
+// and the cache update are cut from /repo's current source and run in a mock parser state: the mask left by the trie walk, the
+// marker token id, the token ranges of the live token-range lexemes, flush_lexer()'s answer, the EOS id and lexer_allows_eos()
+// are symbolic. Decided: bit t of the result == (walk bit t and t is not the bare marker token) or (start is empty, the lexer
+// flushes and t lies in a range of a live token-range lexeme) or (t is EOS, start is empty and the lexer allows EOS).
+struct MockSpec {
+    // one range per lexeme, no heap: `for range in &spec.token_ranges` works on an array as well
+    token_ranges: [std::ops::RangeInclusive<TokenId>; 1],
+}
+
+struct MockTrie {
+    eos: TokenId,
+}
+
+impl MockTrie {
+    fn eos_token(&self) -> TokenId {
+        self.eos
+    }
+}
+
+struct MockComputer {
+    t: MockTrie,
+}
+
+impl MockComputer {
+    fn trie(&self) -> &MockTrie {
+        &self.t
+    }
+}
+
+struct MockPState<const N: usize> {
+    special_token_marker_token: TokenId,
+    flush_ok: bool,
+    allows_eos: bool,
+    specs: [MockSpec; N],
+}
+
+impl<const N: usize> MockPState<N> {
+    fn run_speculative<T>(&mut self, _lbl: &str, f: impl FnOnce(&mut Self) -> T) -> T {
+        f(self)
+    }
+    fn flush_lexer(&mut self) -> bool {
+        self.flush_ok
+    }
+    fn token_range_lexemes(&self) -> [&MockSpec; N] {
+        self.specs.each_ref()
+    }
+    fn lexer_allows_eos(&mut self) -> bool {
+        self.allows_eos
+    }
+    #[allow(unused_mut, clippy::all)]
+    fn post(&mut self, computer: &MockComputer, start: &[u8], mut set: SimpleVob) -> SimpleVob {
+        include!("verif_bias_post_slice.rs");
+        set
+    }
+}
+
+fn k19_4_body<const NSPEC: usize, const START: usize>() {
+    const V: usize = 40; // two words, 24 spare bits
+    let words: [u32; 2] = kani::any();
+    let mut set = SimpleVob::alloc(V);
+    let mut i = 0;
+    while i < V {
+        if words[i / 32] & (1 << (i % 32)) != 0 {
+            set.allow_token(i as u32);
+        }
+        i += 1;
+    }
+    let marker: TokenId = kani::any();
+    kani::assume(marker < V as u32 || marker == INVALID_TOKEN);
+    let eos: TokenId = kani::any();
+    kani::assume(eos < V as u32 || eos == INVALID_TOKEN);
+    let mut lo = [0u32; 2];
+    let mut hi = [0u32; 2];
+    let mut k = 0;
+    while k < NSPEC {
+        lo[k] = kani::any();
+        hi[k] = kani::any();
+        kani::assume(lo[k] <= hi[k] && hi[k] < V as u32);
+        k += 1;
+    }
+    let specs: [MockSpec; NSPEC] = std::array::from_fn(|k| MockSpec { token_ranges: [lo[k]..=hi[k]] });
+    let flush_ok: bool = kani::any();
+    let allows_eos: bool = kani::any();
+    let mut st = MockPState { special_token_marker_token: marker, flush_ok, allows_eos, specs };
+    let comp = MockComputer { t: MockTrie { eos } };
+    let start_buf = [b'x'; 1];
+    let start: &[u8] = &start_buf[..START];
+    let out = st.post(&comp, start, set);
+    let t: u32 = kani::any();
+    kani::assume(t < V as u32);
+    let walk = words[(t / 32) as usize] & (1 << (t % 32)) != 0;
+    let mut in_range = false;
+    let mut k = 0;
+    while k < NSPEC {
+        if lo[k] <= t && t <= hi[k] {
+            in_range = true;
+        }
+        k += 1;
+    }
+    let want = (walk && t != marker) || (START == 0 && flush_ok && in_range) || (START == 0 && allows_eos && t == eos);
+    assert!(out.is_allowed(t) == want);
+    kani::cover!(NSPEC == 0 || (in_range && t == marker && flush_ok));
+    kani::cover!(walk && t == marker);
+    kani::cover!(START != 0 || (t == eos && allows_eos && !walk));
+}
+
+#[kani::proof]
+#[kani::unwind(42)]
+fn k19_4_bias_post_s0_n1() {
+    k19_4_body::<1, 0>();
+}
+
+#[kani::proof]
+#[kani::unwind(42)]
+fn k19_4_bias_post_s0_n2() {
+    k19_4_body::<2, 0>();
+}
+
+#[kani::proof]
+#[kani::unwind(42)]
+fn k19_4_bias_post_s1_n1() {
+    k19_4_body::<1, 1>();
+}
+
+#[kani::proof]
+#[kani::unwind(42)]
+fn k19_4_bias_post_s0_n0() {
+    k19_4_body::<0, 0>();
+}
+
+#[kani::proof]
+#[kani::unwind(42)]
+fn k19_4_witness_must_fail() {
+    let mut set = SimpleVob::alloc(40);
+    let m: TokenId = kani::any();
+    kani::assume(m < 40);
+    set.allow_token(m);
+    let mut st = MockPState::<0> { special_token_marker_token: m, flush_ok: true, allows_eos: false, specs: [] };
+    let comp = MockComputer { t: MockTrie { eos: INVALID_TOKEN } };
+    let out = st.post(&comp, &[], set);
+    // wrong on purpose: claims the bare marker token survives
+    assert!(out.is_allowed(m));
+}
